@@ -169,21 +169,22 @@ type ExploreConfig struct {
 
 // pathCtx is the per-path symbolic state.
 type pathCtx struct {
-	ex        *Explorer
-	ar        termArena
-	prefix    []int
-	decisions []int
-	pc        []*Term
-	sol       *Solver
-	model     Model
-	modelOK   bool
-	syms      []SymRec
-	steps     int64
-	depth     int
-	viols     []*Violation
-	reached   []string
-	nDraw     int
-	notes     map[string]string
+	ex          *Explorer
+	ar          termArena
+	prefix      []int
+	decisions   []int
+	pc          []*Term
+	sol         *Solver
+	model       Model
+	modelOK     bool
+	syms        []SymRec
+	steps       int64
+	depth       int
+	viols       []*Violation
+	reached     []string
+	nDraw       int
+	drawsByRecv map[*value]int
+	notes       map[string]string
 	// loop bookkeeping for unwind / subsumption
 	funcs map[string]bool
 	// per-path stats
